@@ -372,7 +372,7 @@ def extract_test_calls():
     import glob
     consts = importlib.import_module("shexer.consts")
     calls = []
-    for path in sorted(glob.glob("/repo/test/**/*.py", recursive=True)):
+    for path in sorted(glob.glob(os.environ.get("VERIF_REPO", "/repo") + "/test/**/*.py", recursive=True)):
         try:
             tree = ast.parse(open(path).read())
         except SyntaxError:
